@@ -46,11 +46,19 @@ struct Model {
     int64_t n_evict{0}, n_reinsert{0}, n_subhit{0}, n_hit{0}, n_miss{0}, n_insert{0};
     std::set<int> evicted[2];
 
+    bool seen[2]{false, false};
+
     void event(int id, int n, int ev) {
         if (id < 0 || id > 1 || !error.empty()) {
             return;
         }
         Lru& l = c[id];
+        if (!seen[id]) {
+            // first access of this cache by this thread: start from what the thread can observe (empty for
+            // per-thread caches; whatever is there for a process-wide cache), not from an assumption
+            seen[id] = true;
+            l.keys = (id == 0) ? dsplib::verif::fft_cache_keys() : dsplib::verif::rfft_cache_keys();
+        }
         if (ev == 1) {
             ++n_hit;
             if (depth > 0) {
@@ -255,7 +263,8 @@ std::vector<int> pick_alphabet(Rng& r, int count) {
     const std::vector<int> bypass{1, 2, 4, 8};
     const std::vector<int> pow2{16, 32, 64, 128, 256, 512, 1024, 2048, 4096};
     const std::vector<int> sprime{3, 5, 7, 11, 13, 17, 19, 23, 29, 31, 37, 41};
-    const std::vector<int> bprime{43, 47, 53, 59, 97, 101, 127, 211, 257, 1009};
+    // primes > 41 use the chirp-z path; several share one internal power-of-two work size (43..61 -> 128, 2053/4093 -> 8192)
+    const std::vector<int> bprime{43, 47, 53, 59, 61, 97, 101, 127, 211, 257, 1009, 1021, 2053, 2063, 4093};
     const std::vector<int> comp{6, 10, 12, 15, 18, 20, 30, 36, 60, 100, 120, 125, 360, 500, 1000, 1023, 1025};
     const std::vector<int> evenr{24, 86, 94, 120, 200, 202, 2000, 2018, 82, 22};
     std::vector<int> a;
@@ -377,8 +386,6 @@ Result exec(const Plan& pl) {
         Model& md = models[size_t(me)];
         md.capacity = capacity;
         // a thread's model starts from what the thread can observe, not from an assumption about where caches live
-        md.c[0].keys = dsplib::verif::fft_cache_keys();
-        md.c[1].keys = dsplib::verif::rfft_cache_keys();
         tl_model = &md;
         uint64_t prev_state = 0;
         auto fail = [&](const std::string& cls, const std::string& what) {
@@ -394,7 +401,32 @@ Result exec(const Plan& pl) {
             md.depth = 0;
             std::vector<double> got;
             std::vector<double> ref;
-            bool have_ref = false;
+            std::function<std::vector<double>()> ref_fn;   // the same request, to be executed in a fresh thread
+            bool single_length = false;
+            auto show = [](const std::vector<int>& v) {
+                std::string s = "[";
+                for (int x : v) {
+                    s += fmt("%d ", x);
+                }
+                return s + "]";
+            };
+            // lock-step refinement: the reference LRU driven by the observed accesses must equal the hook's key list
+            auto lockstep = [&](const char* when) {
+                if (!md.error.empty()) {
+                    fail("C10:lru-model", fmt("thread %d op %zu %s (%s): %s", me, i, op.kind.c_str(), when, md.error.c_str()));
+                }
+                const auto ck = dsplib::verif::fft_cache_keys();
+                const auto rk = dsplib::verif::rfft_cache_keys();
+                if (int(ck.size()) > capacity || int(rk.size()) > capacity) {
+                    fail("C10:capacity", fmt("thread %d op %zu: %zu complex / %zu real plans cached, configured capacity %d", me, i, ck.size(), rk.size(), capacity));
+                }
+                if ((md.seen[0] && ck != md.c[0].keys) || (md.seen[1] && rk != md.c[1].keys)) {
+                    fail("C10:lru-model", fmt("thread %d op %zu %s(%lld) (%s): cached lengths complex %s real %s, reference LRU (capacity %d) over the same accesses holds complex %s real %s", me,
+                                              i, op.kind.c_str(), static_cast<long long>(op.iarg(0)), when, show(ck).c_str(), show(rk).c_str(), capacity, show(md.c[0].keys).c_str(),
+                                              show(md.c[1].keys).c_str()));
+                }
+            };
+            // phase 1: the observed request
             try {
                 if (op.kind == "mkplan") {
                     Kept& k = slots[op.iarg(0)];
@@ -403,15 +435,13 @@ Result exec(const Plan& pl) {
                     k.first_ds = uint32_t(mix(uint64_t(op.iarg(2)), i) >> 33) | 1u;
                     k.first_out = solve_kept(k, k.first_ds);
                     got = k.first_out;
-                    const Kept* kp = &k;
-                    tl_model = nullptr;
-                    run_isolated([&] {
+                    const int kk = k.kind, kn = k.n, km = k.m;
+                    const uint32_t kds = k.first_ds;
+                    ref_fn = [kk, kn, km, kds] {
                         Kept f;
-                        make_kept(f, kp->kind, kp->n, kp->m);
-                        ref = solve_kept(f, kp->first_ds);
-                    });
-                    tl_model = &md;
-                    have_ref = true;
+                        make_kept(f, kk, kn, km);
+                        return solve_kept(f, kds);
+                    };
                 } else if (op.kind == "useplan") {
                     Kept& k = slots[op.iarg(0)];
                     if (k.live()) {
@@ -429,44 +459,40 @@ Result exec(const Plan& pl) {
                                                                  k.kind, k.n, k.creator));
                             }
                         }
-                        const Kept* kp = &k;
-                        tl_model = nullptr;
-                        run_isolated([&] {
+                        const int kk = k.kind, kn = k.n, km = k.m;
+                        ref_fn = [kk, kn, km, ds] {
                             Kept f;
-                            make_kept(f, kp->kind, kp->n, kp->m);
-                            ref = solve_kept(f, ds);
-                        });
-                        tl_model = &md;
-                        have_ref = true;
+                            make_kept(f, kk, kn, km);
+                            return solve_kept(f, ds);
+                        };
                     }
                 } else if (op.kind == "drop") {
                     slots[op.iarg(0)].reset();
                 } else {
                     got = guarded([&] { return do_request(op); });
-                    tl_model = nullptr;
-                    run_isolated([&] { ref = guarded([&] { return do_request(op); }); });
-                    tl_model = &md;
-                    have_ref = true;
-                    // retention of the most recent use: the same single-length request again, nothing in between
-                    if (op.kind == "fft" || op.kind == "rfft" || op.kind == "ifft" || op.kind == "irfft") {
-                        md.misses_top = 0;
-                        const auto again = guarded([&] { return do_request(op); });
-                        ++n_retention;
-                        if (md.misses_top != 0 && md.error.empty()) {
-                            fail("C10:not-retained", fmt("thread %d op %zu: %s of length %lld repeated immediately caused %d cache miss(es): the most recently used plan was not retained "
-                                                         "(capacity %d)",
-                                                         me, i, op.kind.c_str(), static_cast<long long>(op.iarg(0)), md.misses_top, capacity));
-                        }
-                        if (again.size() != got.size() || std::memcmp(again.data(), got.data(), got.size() * sizeof(double)) != 0) {
-                            fail("C10:repeat-differs", fmt("thread %d op %zu: %s of length %lld repeated immediately gave a different result", me, i, op.kind.c_str(),
-                                                           static_cast<long long>(op.iarg(0))));
-                        }
-                    }
+                    ref_fn = [&op] { return guarded([&] { return do_request(op); }); };
+                    single_length = (op.kind == "fft" || op.kind == "rfft" || op.kind == "ifft" || op.kind == "irfft");
                 }
             } catch (const std::exception& e) {
                 fail("C10:exception", fmt("thread %d op %zu %s(%lld): exception: %s", me, i, op.kind.c_str(), static_cast<long long>(op.iarg(0)), e.what()));
             }
-            if (have_ref) {
+            // phase 2: refinement, before anything else touches a cache
+            lockstep("after the request");
+            // phase 3: transparency - the same request in a fresh thread
+            if (ref_fn) {
+                tl_model = nullptr;
+                try {
+                    run_isolated([&] { ref = ref_fn(); });
+                } catch (...) {
+                }
+                tl_model = &md;
+                // a process-wide cache is touched by the fresh thread too: adopt what this thread can observe now
+                if (md.seen[0]) {
+                    md.c[0].keys = dsplib::verif::fft_cache_keys();
+                }
+                if (md.seen[1]) {
+                    md.c[1].keys = dsplib::verif::rfft_cache_keys();
+                }
                 ++n_cmp;
                 const Cmp c = compare_stream(got, ref, 1e-9);
                 if (!c.ok) {
@@ -475,27 +501,24 @@ Result exec(const Plan& pl) {
                 }
                 res.digest.bytes(got.data(), got.size() * sizeof(double));
             }
-            // lock-step refinement
-            if (!md.error.empty()) {
-                fail("C10:lru-model", fmt("thread %d op %zu %s: %s", me, i, op.kind.c_str(), md.error.c_str()));
+            // phase 4: retention of the most recent use - the same single-length request again, nothing in between
+            if (single_length && failure.empty()) {
+                md.misses_top = 0;
+                md.depth = 0;
+                const auto again = guarded([&] { return do_request(op); });
+                ++n_retention;
+                if (md.misses_top != 0 && md.error.empty()) {
+                    fail("C10:not-retained", fmt("thread %d op %zu: %s of length %lld repeated immediately caused %d cache miss(es): the most recently used plan was not retained "
+                                                 "(capacity %d)",
+                                                 me, i, op.kind.c_str(), static_cast<long long>(op.iarg(0)), md.misses_top, capacity));
+                }
+                if (again.size() != got.size() || std::memcmp(again.data(), got.data(), got.size() * sizeof(double)) != 0) {
+                    fail("C10:repeat-differs", fmt("thread %d op %zu: %s of length %lld repeated immediately gave a different result", me, i, op.kind.c_str(), static_cast<long long>(op.iarg(0))));
+                }
+                lockstep("after the immediate repeat");
             }
             const auto ck = dsplib::verif::fft_cache_keys();
             const auto rk = dsplib::verif::rfft_cache_keys();
-            auto show = [](const std::vector<int>& v) {
-                std::string s = "[";
-                for (int x : v) {
-                    s += fmt("%d ", x);
-                }
-                return s + "]";
-            };
-            if (int(ck.size()) > capacity || int(rk.size()) > capacity) {
-                fail("C10:capacity", fmt("thread %d op %zu: %zu complex / %zu real plans cached, configured capacity %d", me, i, ck.size(), rk.size(), capacity));
-            }
-            if (ck != md.c[0].keys || rk != md.c[1].keys) {
-                fail("C10:lru-model", fmt("thread %d op %zu %s(%lld): cached lengths complex %s real %s, reference LRU (capacity %d) over the same accesses holds complex %s real %s", me, i,
-                                          op.kind.c_str(), static_cast<long long>(op.iarg(0)), show(ck).c_str(), show(rk).c_str(), capacity, show(md.c[0].keys).c_str(),
-                                          show(md.c[1].keys).c_str()));
-            }
             Hash h;
             h.u64(uint64_t(capacity));
             for (int x : ck) {
